@@ -181,6 +181,8 @@ pub struct HistSpec {
     pub o_c08: bool,
     pub o_c15: bool,
     pub max_executions: u64,
+    /// also park the worker inside its cache write-lock section (lock-window mode)
+    pub lock_window: bool,
 }
 
 fn svio(spec: &HistSpec, key: &str, what: String, extra: Value) -> Violation {
@@ -195,6 +197,7 @@ fn svio(spec: &HistSpec, key: &str, what: String, extra: Value) -> Violation {
             "cfg": cfg_to_json(&spec.cfg),
             "max_faults": spec.max_faults,
             "fault_policy": format!("{:?}", spec.fault_policy),
+            "lock_window": spec.lock_window,
             "extra": extra,
         }),
     }
@@ -550,7 +553,7 @@ fn trace_signature(r: &ExecResult) -> u64 {
             _ => {}
         }
     }
-    h.add_u64(r.trace.len() as u64);
+    h.add_u64(r.trace.iter().filter(|e| !matches!(e, Event::Note(_))).count() as u64);
     h.0
 }
 
@@ -604,6 +607,7 @@ pub fn explore_history(spec: &HistSpec, vios: &mut Vec<Violation>, stats: &mut S
     let mut dfs = Dfs::new(spec.max_faults, spec.fault_policy);
     let faults_possible = spec.max_faults > 0 && spec.fault_policy != FaultPolicy::None;
     stats.histories += 1;
+    sched::set_lock_window(spec.lock_window);
     let mut first = true;
     loop {
         dfs.begin_execution();
@@ -1460,6 +1464,7 @@ pub fn replay(prop: &str, r: &Value) -> i32 {
         o_c08: prop == "C08",
         o_c15: prop == "C15",
         max_executions: 1,
+        lock_window: r["lock_window"].as_bool().unwrap_or(false),
     };
     let schedule: Vec<(usize, String)> = r["extra"]["schedule"]
         .as_array()
@@ -1473,6 +1478,7 @@ pub fn replay(prop: &str, r: &Value) -> i32 {
         .unwrap_or_default();
     let pl = Arc::new(plan(&spec.hist, &spec.cfg));
     let faults_possible = spec.max_faults > 0 && spec.fault_policy != FaultPolicy::None;
+    sched::set_lock_window(spec.lock_window);
     let mut rp = sched::Replay { schedule: schedule.clone(), divergence: None, max_faults: spec.max_faults, fault_policy: spec.fault_policy };
     let (res, co, acks, dir) = run_once(&spec, &pl, &mut rp, faults_possible);
     if let Some(d) = &rp.divergence {
